@@ -30,7 +30,7 @@ ASSUMPTIONS = [
     "runs with a non-zero pinned terminal_psi are excluded (the boundary condition itself is not gauge covariant)",
     "mu compared after removing its area-weighted mean, psi after removing the gauge phase and the best global phase",
 ]
-TOLERANCES = {"op": 1e-12, "run": 1e-8}
+TOLERANCES = {"op": 1e-12, "run": 1e-8, "run_screening": 1e-5}
 A_ALPH = ["zero", "uni", "lin", "wrap", "rnd"]
 CHI_ALPH = ["zero", "const", "lin", "quad", "rnd", "large"]
 PSI_ALPH = ["one", "phase", "rnd", "vortex"]
@@ -241,7 +241,10 @@ def run_run(case):
     worst = compare_frames(fa, fb, dev.mesh.areas, chi=chi)
     for k, v in worst.items():
         res.residual("run_" + k, v)
-    bad = {k: v for k, v in worst.items() if v > TOLERANCES["run"]}
+    # with screening both runs iterate a fixed point to a relative tolerance of 1e-6 and may stop after a different
+    # number of iterations (rounding), so agreement is only expected to that level
+    tol_run = TOLERANCES["run_screening"] if case["screening"] else TOLERANCES["run"]
+    bad = {k: v for k, v in worst.items() if v > tol_run}
     if bad:
         res.violate("observables-depend-on-gauge", fields=",".join(sorted(bad)), biased=case["biased"], screening=case["screening"],
                     detail={"case": case, "worst": worst})
